@@ -189,6 +189,7 @@ def r4_weighted(ctx):
             off = "i+ncomps" if idx[0] == "binop" and idx[1] == "+" and ("param", "ncomps") in Q.leaves(idx) else ("i" if idx[0] == "elem" else "?")
             slots[off] = (idx, val, e.data[0])
         ok_m = ok_v = None
+        why_v = "the weighted variance is not the weighted mean of squared deviations from slot i"
         if "i" in slots:
             idx, val, buf = slots["i"]
             g = ("param", "group")
@@ -208,8 +209,14 @@ def r4_weighted(ctx):
                 sq = a[0] == "binop" and a[1] == "**" and a[3] == const(2)
                 inner_ok = sq and a[2][0] == "binop" and a[2][1] == "-" and a[2][3] == ("sub", buf, i_t) and a[2][2][0] == "sub" and fmt_key(a[2][2][2])[1] == i_t and (fmt_key(a[2][2][2])[0] or "").startswith("data")
                 ok_v = True if inner_ok and wt and wt.startswith("weight") and wi == i_t else (False if sq is False or (wt and wi != i_t) or w is None else None)
+                # deviations about another slot of the same buffer (a constant index, i + ncomps, ...) are about another component's mean
+                if ok_v is None and sq and a[2][0] == "binop" and a[2][1] == "-" and a[2][3][0] == "sub" and a[2][3][1] == buf and a[2][3][2] != i_t:
+                    ok_v, why_v = False, "the deviations of component i are taken about slot %s of the buffer, not about its own mean (slot i)" % show(a[2][3][2])
+                elif ok_v is None and sq and a[2][0] == "binop" and a[2][1] == "-" and a[2][2][0] == "sub" and a[2][2][1] == ("param", "group") and a[2][3] == ("sub", buf, i_t) \
+                        and fmt_key(a[2][2][2])[1] is not None and fmt_key(a[2][2][2])[1] != i_t:
+                    ok_v, why_v = False, "the deviations of component i use the values of another component"
         ctx.check("R4", qn + "|slot-i+ncomps-weighted-variance", ok_v, "slot i+ncomps = reduction((data_i - slot_i)**2, weights=weight_i)",
-                  bad="the weighted variance is not the weighted mean of squared deviations from slot i", fn=qn)
+                  bad=why_v, fn=qn)
     # column names and readers
     for p in fa.paths:
         if p.exit != "return":
@@ -260,8 +267,18 @@ def r6_variance_to_weights(ctx):
         ctx.check("R6", "%s|weights-start-at-one|%s" % (qn, tag), True, "weights start as ones shaped like the (NaN-cleaned) variance", fn=qn)
         ctx.check("R6", "%s|nan-to-zero|%s" % (qn, tag), True if var is not None and var[0] == "call" and callee(var) == "numpy.nan_to_num" else (False if var is not None and ("param", "variance") in Q.leaves(var) else None),
                   "NaN variances are turned into 0 (hence weight 1)", bad="NaNs are not cleaned: NaN variances give NaN weights", fn=qn)
-        ctx.check("R6", "%s|dtype-forwarded|%s" % (qn, tag), True if kw(w, "dtype") == ("param", "dtype") else None, "dtype is forwarded to the output", fn=qn)
         st = [e for e in p.events if e.kind == "store" and e.data[0] == w]
+        dt = kw(w, "dtype")
+        if dt is None and callee(w) == "numpy.ones" and len(w[2]) > 1:
+            dt = w[2][1]
+        inherits = dt is None and callee(w) == "numpy.ones_like"
+        okd = True if dt == ("param", "dtype") else None
+        whyd = ""
+        if inherits and any(any(x[0] == "binop" and x[1] == "/" for x in walk(e.data[2])) for e in st):
+            okd, whyd = False, "the buffer %s inherits the dtype of the variances, and the ratio min(var)/var is stored into it: integer variances truncate every weight to 0 or 1" % show(w)[:50]
+        elif dt is not None and is_const(dt) and dt != const("float64"):
+            okd, whyd = False, "the weights buffer has the fixed dtype %s, the dtype argument is ignored" % show(dt)
+        ctx.check("R6", "%s|dtype-forwarded|%s" % (qn, tag), okd, "the weights are computed in a buffer of the requested dtype", bad=whyd, fn=qn)
         if nz:
             ok, why = None, ""
             if len(st) == 1:
